@@ -226,7 +226,7 @@ CHECKS = {
 
 # rules added after the texts above were written (kept separate so the per-property texts stay readable)
 EXTRA = {
-    "C01": "R01.5 every path of Image::draw / SubImage drawing passes through the one draw call of the wrapped image on the target translated by the offset (must-pass-through on path summaries).",
+    "C01": "R01.6 StyledPixelsIterator::next of the triangle returns None only on paths on which lines_iter.next() is exhausted (found and fixed a defect). R01.5 every path of Image::draw / SubImage drawing passes through the one draw call of the wrapped image on the target translated by the offset (must-pass-through on path summaries).",
     "C03": "R03.8 Translated, ColorConverted and Cropped forward every call: on every path of draw_iter / fill_contiguous / fill_solid / clear the parent's method of the same name is called once on self.parent and its outcome returned (must-pass-through). R03.9 iterator::contiguous::Cropped::new discards exactly S = crop.y * size.width + crop.x source colours (nth(S - 1) under 0 < S, nothing under S = 0).",
     "C05": "R05.4 also: a row of the ellipse / rounded rectangle is given up only after an exhausted column search (no second, shortcut membership test).",
     "C07": "R07.5 on every path of Polyline::bounding_box the result is the documented empty box or every use of the vertex slice has self.translate added.",
